@@ -1,6 +1,7 @@
 import Spok.Lemmas.Hash
 import Spok.Lemmas.HashPool
 import Spok.Basic.Sha256
+import Spok.Lemmas.HashJudge
 /-! # Property C04 — the digest is a deterministic, change-sensitive function of the file set
 
 Statements about the model `Spok.Hash.digest` (the function) and `Spok.HashPool` (the goroutines), for **every** hash
@@ -11,7 +12,7 @@ outputs, which the executable SHA-256 used by the oracle satisfies (`sha256_leng
 "Collection of (path, content) pairs" is read with multiplicity (`regs`): a path listed twice is hashed twice, exactly
 as the Go code does; for a fixed spokfile the list is a function of the file set, so this is the stronger reading. -/
 namespace Spok.Props.C04
-open Spok.Hash Spok.HashPool
+open Spok.Hash Spok.HashPool Spok.Judge.Hash
 
 /-- same digest (or same error) for every ordering of the list -/
 theorem C04_perm (sha : Bytes → Bytes) {l₁ l₂ : List (Path × Entry)} (h : l₁.Perm l₂) :
@@ -87,12 +88,15 @@ theorem C04_sensitive {sha : Bytes → Bytes} (h32 : ∀ x, (sha x).length = 32)
     · exact collision_of_item_eq h32 hxy hf
   · exact ⟨_, _, hcat, hsha⟩
 
-/-- contrapositive reading: without a collision, different collections have different digests -/
-theorem C04_sensitive_ne {sha : Bytes → Bytes} (h32 : ∀ x, (sha x).length = 32) (hnc : ¬ Collision sha)
+/-- the same as a disjunction: different collections have different digests, or `sha` has an explicit collision.
+    (A hypothesis "`sha` has no collision" would be unsatisfiable for a 32-byte hash and make the statement vacuous.) -/
+theorem C04_sensitive_or {sha : Bytes → Bytes} (h32 : ∀ x, (sha x).length = 32)
     {l₁ l₂ : List (Path × Entry)} {d₁ d₂ : String} (hd₁ : digest sha l₁ = .ok d₁) (hd₂ : digest sha l₂ = .ok d₂)
-    (hne : ¬ (regs l₁).Perm (regs l₂)) : d₁ ≠ d₂ := by
-  intro h; subst h
-  exact hnc (C04_sensitive h32 hd₁ hd₂ hne)
+    (hne : ¬ (regs l₁).Perm (regs l₂)) : d₁ ≠ d₂ ∨ Collision sha := by
+  by_cases h : d₁ = d₂
+  · subst h
+    exact .inr (C04_sensitive h32 hd₁ hd₂ hne)
+  · exact .inl h
 
 /-- changing the content of a listed file (anything else may change too) -/
 theorem C04_content_change {sha : Bytes → Bytes} (h32 : ∀ x, (sha x).length = 32) {fs fs' : Path → Entry}
@@ -162,6 +166,50 @@ theorem C04_schedule_independent (sha : Bytes → Bytes) {ncpu : Nat} (hcpu : 0 
   rw [this] at h
   exact finish_perm sha h
 
+/-- the judge accepts what the model does — or `sha` has an explicit collision: for a fault-free base list, variants
+    that have the same collection (`same`) and variants whose collection differs (`edit`) -/
+theorem C04_judge_accepts_model {sha : Bytes → Bytes} (h32 : ∀ x, (sha x).length = 32)
+    (base : Obs) (vs : List (Rel × Obs)) (hb : cleanObs base = true)
+    (hsame : ∀ v ∈ vs, v.1 = .same → cleanObs v.2 = true ∧ (regs (filesOf v.2)).Perm (regs (filesOf base)))
+    (hedit : ∀ v ∈ vs, v.1 = .edit → cleanObs v.2 = true → ¬ (regs (filesOf v.2)).Perm (regs (filesOf base))) :
+    c04 (modelRun sha .base base :: vs.map fun v => modelRun sha v.1 v.2) = some true ∨ Collision sha := by
+  by_cases hnc : Collision sha
+  · exact .inr hnc
+  left
+  obtain ⟨db, hdb⟩ := clean_digest sha hb
+  simp only [c04, modelRun_clean, hb, Bool.not_true, Bool.false_eq_true, if_false, Option.some.injEq]
+  rw [Bool.and_eq_true]
+  refine ⟨?_, ?_⟩
+  · apply List.all_eq_true.mpr
+    intro r hr
+    rcases List.mem_cons.mp hr with rfl | hr
+    · exact modelRun_selfOk sha _ _
+    · obtain ⟨v, _, rfl⟩ := List.mem_map.mp hr
+      exact modelRun_selfOk sha _ _
+  · apply List.all_eq_true.mpr
+    intro r hr
+    obtain ⟨v, hv, rfl⟩ := List.mem_map.mp hr
+    cases hrel : v.1 with
+    | base => simp [Run.relOk, modelRun]
+    | other => simp [Run.relOk, modelRun]
+    | same =>
+      obtain ⟨hc, hp⟩ := hsame v hv hrel
+      have := C04_collection sha (clean_readable hc) (clean_readable hb) hp
+      simp [Run.relOk, modelRun, this]
+    | edit =>
+      rw [Run.relOk]
+      simp only [modelRun_clean]
+      simp only [modelRun]
+      cases hc : cleanObs v.2 with
+      | false => rfl
+      | true =>
+        obtain ⟨dv, hdv⟩ := clean_digest sha hc
+        have hne : dv ≠ db := by
+          rcases C04_sensitive_or h32 hdv hdb (hedit v hv hrel hc) with h | h
+          · exact h
+          · exact absurd h hnc
+        simp [digestsOf, hdv, hdb, outOf, hne]
+
 /-! ## the hypotheses are satisfiable (non-vacuity) -/
 
 /-- the executable SHA-256 meets the side condition of the sensitivity theorems -/
@@ -179,7 +227,7 @@ example : (listing fsEx [[97], [100], [98]]).filter (fun pe => pe.2 ≠ .dir) = 
 example : (∀ pe ∈ listing fsEx [[97], [100], [98]], pe.2 ≠ .unreadable) ∧ (∀ pe ∈ listing fsEx [[98], [97]], pe.2 ≠ .unreadable)
     ∧ (regs (listing fsEx [[97], [100], [98]])).Perm (regs (listing fsEx [[98], [97]])) := by decide
 /-- C04_sensitive: all hypotheses hold together for a (bad) 32-byte hash function — and then a collision is indeed
-    what comes out; for a collision-free function they cannot hold together, which is the property (C04_sensitive_ne) -/
+    what comes out; for a collision-free function they cannot hold together, which is the property (see C04_sensitive_or) -/
 example : (∀ x, (zsha x).length = 32) ∧ (∃ d, digest zsha (listing fsEx [[97]]) = .ok d ∧ digest zsha (listing fsEx [[98]]) = .ok d)
     ∧ ¬ (regs (listing fsEx [[97]])).Perm (regs (listing fsEx [[98]])) := by
   refine ⟨fun _ => by simp [zsha], ⟨_, rfl, rfl⟩, by decide⟩
@@ -194,5 +242,10 @@ example : fsEx [98] = .regular [] ∧ [98] ∉ ([[97]] ++ [[100]] : List Path) :
 example : Reachable 4 (([] : List (Path × Entry)).map (jobResult zsha)) { (init 4 []) with resultsClosed := true, mainDone := true }
     ∧ final ({ (init 4 []) with resultsClosed := true, mainDone := true } : St Res) :=
   ⟨.step (.step .init (.closeResults _ (by simp [init, nWorkers]) rfl)) (.mainExit _ rfl rfl), rfl⟩
+
+/-- C04_judge_accepts_model: a fault-free base with a `same` and an `edit` variant meeting the hypotheses -/
+example : cleanObs [(.file, [97], [1]), (.dir, [100], [])] = true
+    ∧ (regs (filesOf [(.dir, [100], []), (.file, [97], [1])])).Perm (regs (filesOf [(.file, [97], [1]), (.dir, [100], [])]))
+    ∧ ¬ (regs (filesOf [(.file, [97], [2])])).Perm (regs (filesOf [(.file, [97], [1]), (.dir, [100], [])])) := by decide
 
 end Spok.Props.C04
